@@ -46,6 +46,10 @@ def out_of(kind, c):
         return tuple(10 * c + j for j in range(kind - 10))
     if kind == 21:
         return np.array([10 * c + 100 * t for t in range(3)])
+    if kind == 31:
+        return f"s{10 * c}"
+    if kind == 32:
+        return (10 * c, 10 * c + 1)
     if kind in (22, 23):
         return tuple(np.array([10 * c + j + 100 * t for t in range(3)]) for j in range(kind - 20))
     raise ValueError(kind)
@@ -122,7 +126,10 @@ def one_case(c, rng, tmp):
     arrays = rng.random() < 0.45
     kind = (20 if arrays else 10) + nv
     names = [f"v{j}" for j in range(nv)]
+    one_iterable = None
     to_df = (not arrays) and rng.random() < 0.35
+    if to_df and nv == 1 and rng.random() < 0.35:
+        kind = one_iterable = rng.choice([31, 32])         # ONE output that can be iterated over (a string, a pair)
     mode = "plain"
     if not to_df and rng.random() < 0.12:
         mode = rng.choice(["dataset", "dict"])
@@ -148,7 +155,7 @@ def one_case(c, rng, tmp):
     desc = {"sweep": sw.describe(), "n_vars": nv, "arrays": arrays, "to_df": to_df, "mode": mode, "api": api,
             "constants": {k: (v if not isinstance(v, list) else "list") for k, v in constants.items()},
             "resources": resources, "attrs": attrs, "t_source": t_source, "shuffle": shuffle,
-            "var_names": var_names, "var_dims": repr(var_dims)}
+            "var_names": var_names, "var_dims": repr(var_dims), "kind_override": one_iterable}
     extra = {}
     pool = None
     if rng.random() < 0.06:
@@ -231,9 +238,8 @@ def one_case(c, rng, tmp):
                                       constants=constants or None, resources=resources or None, attrs=attrs or None,
                                       fn_args=tuple(own_args), **defaults)
             if sw.cases:
-                # run_cases forwards `combos` unparsed (parse=False): hand it the parsed form
-                from xyzpy.gen.prepare import parse_combos
-                out = runner.run_cases(cases_sp, fn_args=fn_args_sp, combos=parse_combos(combos),
+                # the sub-grid in any spelling run_combos accepts (dict, tuple of pairs, a single pair)
+                out = runner.run_cases(cases_sp, fn_args=fn_args_sp, combos=combos,
                                        to_df=to_df, **percall, **extra)
             else:
                 out = runner.run_combos(combos, to_df=to_df, **percall, **extra)
@@ -489,7 +495,7 @@ def oracle(desc, obs, sw, constants_full):
         return [("raised", obs["error"])]
     out = obs["out"]
     fn_args = list(sw.case_args) + list(sw.combo_args)
-    kind = (20 if desc["arrays"] else 10) + desc["n_vars"]
+    kind = desc.get("kind_override") or ((20 if desc["arrays"] else 10) + desc["n_vars"])
     names = [f"v{j}" for j in range(desc["n_vars"])]
     consts = dict(desc["resources"])
     consts.update(constants_full)
@@ -509,6 +515,8 @@ def oracle(desc, obs, sw, constants_full):
             r = sw.rank[a][v] if a in sw.rank else (len(v) if isinstance(v, list) else v)
             c += (r + 1) * 7 ** aid
         o = out_of(kind, c)
+        if kind in (31, 32):
+            return (o,)                 # ONE output, whatever its type
         return o if isinstance(o, tuple) else (o,)
     if desc["to_df"]:
         if len(out) != len(requested):
@@ -519,8 +527,9 @@ def oracle(desc, obs, sw, constants_full):
         for _, r in out.iterrows():
             kw = {a: (r[a].item() if hasattr(r[a], "item") else r[a]) for a in fn_args}
             exp = expected(kw)
-            got = tuple(int(r[n]) for n in names)
-            if got != tuple(int(x) for x in exp):
+            plain = lambda x: tuple(plain(y) for y in x) if isinstance(x, (tuple, list)) else (x if isinstance(x, str) else int(x))   # noqa
+            got = tuple(plain(r[n]) for n in names)
+            if got != tuple(plain(x) for x in exp):
                 bad.append(("df-row-mispaired", f"row with {kw} holds outputs {got}, the function gives {exp}"))
                 break
         return bad
